@@ -98,7 +98,11 @@ func Explore(prog *ssa.Program, fn *ssa.Function, cfg *Config) *Result {
 }
 
 func (ex *explorer) worker() {
-	sol, err := newSolver(ex.cfg.Solver, ex.cfg.QueryTimeoutMs)
+	rt := ex.cfg.QueryTimeoutMs
+	if ex.cfg.ResidentTimeoutMs > 0 {
+		rt = ex.cfg.ResidentTimeoutMs
+	}
+	sol, err := newSolver(ex.cfg.Solver, rt)
 	if err != nil {
 		ex.mu.Lock()
 		ex.res.Unsupported = append(ex.res.Unsupported, "cannot start solver: "+err.Error())
@@ -158,6 +162,18 @@ func (ex *explorer) merge(pr *pathResult) {
 	r.Paths++
 	if progressEvery > 0 && r.Paths%progressEvery == 0 {
 		fmt.Fprintf(os.Stderr, "progress: paths=%d work=%d obligations=%d unknown=%d violations=%d last=%s/%s steps=%d forks=%d\n", r.Paths, len(ex.work), r.Obligations, r.Unknown, len(r.Violations), pr.status, pr.detail, pr.steps, pr.forks)
+		type kv struct {
+			k string
+			n int
+		}
+		var kvs []kv
+		for k, n := range pr.branchSites {
+			kvs = append(kvs, kv{k, n})
+		}
+		sort.Slice(kvs, func(a, b int) bool { return kvs[a].n > kvs[b].n })
+		for k := 0; k < len(kvs) && k < 8; k++ {
+			fmt.Fprintf(os.Stderr, "    fork site %4d x %s\n", kvs[k].n, kvs[k].k)
+		}
 	}
 	r.Obligations += pr.obligs
 	r.Discharged += pr.discharged
